@@ -304,7 +304,12 @@ func oneConnection(r *mon.Run, work string, idx int, rng *mrand.Rand, fx *fixtur
 	downData := hellogen.Bytes(rng, s.Down)
 	go func() {
 		var res serverResult
-		defer func() { srvDone <- res }()
+		defer func() {
+			if res.err != nil {
+				srvSide.Close() // a failed server side hangs up, as a real proxy would; the client then fails promptly instead of waiting for the watchdog
+			}
+			srvDone <- res
+		}()
 		conn, err := ech.NewConn(context.Background(), tapc, ech.WithKeys(echKeys))
 		if err != nil {
 			res.err, res.stage = err, "NewConn"
